@@ -306,7 +306,11 @@ def check_fields(grid, geo, mesh, mod, add):
         # extract_subfield
         for wg in (False, True):
             for i in nodes:
-                sf = mesh.extract_subfield(f, i, with_ghost_cells=wg)
+                try:
+                    sf = mesh.extract_subfield(f, i, with_ghost_cells=wg)
+                except (ValueError, IndexError, AssertionError, TypeError) as e:
+                    add(f"extract_subfield(ghost={wg}) raises {type(e).__name__}", f"{kind} node {i}: {str(e)[:200]}")
+                    break
                 n += 1
                 bad = []
                 if type(sf) is not type(f):
@@ -428,9 +432,10 @@ def bc_spec(geo, rank, cls):
         return "auto_periodic_neumann"
     if cls == "antiperiodic" and not any(geo["periodic"]):
         return None
+    if cls != "antiperiodic" and all(geo["periodic"]):
+        return None  # nothing but periodic conditions: coincides with "auto"
     spec = {}
     dim = geo["dim"]
-    others_expr = None
     for a, (name, per) in enumerate(zip(geo["axes"], geo["periodic"])):
         if per:
             spec[name] = "anti-periodic" if cls == "antiperiodic" else "periodic"
@@ -656,7 +661,12 @@ def operator_case(case):
                     op_g(np.array(batch[b]), R[b])
                 G["R"][k] = R
             R = G["R"][k]
-            C = split(batch)
+            try:
+                C = split(batch)
+            except (ValueError, IndexError, AssertionError, TypeError) as e:
+                add("operator", f"{vn}|applying the operator on the extracted blocks raises {type(e).__name__}",
+                    f"operator {vn}, ghost cells from {bcname}: {str(e)[:200]}", {"part": "operator", "op": vn, "bc": bcname})
+                return None
             axes = tuple(range(1, R.ndim))
             scale = 1.0 + np.max(np.abs(R), axis=axes, keepdims=True)
             if C.shape == R.shape and np.all(np.abs(C - R) <= TOL_OP * scale):
@@ -878,6 +888,61 @@ def record_program(bcs, data):
     return log
 
 
+def scatter_gather(grid, mesh, mod, mb, mpi, add):
+    """split_field_mpi / combine_field_data_mpi of all nodes through the mailbox: the main node sends, every
+    other node receives (both orders of the nodes), then the way back"""
+    n = 0
+
+    def as_node(i):
+        mpi.rank, mpi.is_main, mb.node = i, i == 0, i
+
+    for kind, f in make_fields(grid):
+        blank = f.copy()
+        blank._data_full[...] = SENT
+        for order in (range(mod.n), [0] + list(range(mod.n - 1, 0, -1))):
+            mb.box = {}
+            subs = {}
+            try:
+                for i in order:  # node 0 first: a receive before the send would block
+                    as_node(i)
+                    subs[i] = mesh.split_field_mpi(f if i == 0 else blank)
+                    n += 1
+            except _WouldBlock as e:
+                add("split_field_mpi waits for a message that is never sent", f"{kind}: key (source, dest, tag)={e.args[0]}")
+                continue
+            if mb.box:
+                add("split_field_mpi leaves messages behind", f"{kind}: keys {sorted(mb.box)}")
+            for i in range(mod.n):
+                exp = f._data_full[(...,) + mod.slices(i, True)]
+                sf = subs[i]
+                if (type(sf) is not type(f) or sf.grid is not mod.subs[i] or sf.label != f.label or sf.dtype != f.dtype
+                        or sf._data_full.shape != exp.shape or sf._data_full.tobytes() != exp.tobytes()):
+                    add("split_field_mpi does not deliver the block of the node (class, label, dtype, data with ghost cells)",
+                        f"{kind} node {i} at {mod.pos[i]}")
+                    break
+            for wg in (False, True):
+                mb.box = {}
+                res = None
+                try:
+                    for i in list(order)[1:] + [0]:  # node 0 last: it collects
+                        as_node(i)
+                        part = np.array(f._data_full[(...,) + mod.slices(i, True)] if wg else f.data[(...,) + mod.slices(i, False)])
+                        r = mesh.combine_field_data_mpi(part, with_ghost_cells=wg)
+                        n += 1
+                        if i == 0:
+                            res = r
+                        elif r is not None:
+                            add("combine_field_data_mpi returns data on a node other than the main node", f"{kind} node {i}")
+                except _WouldBlock as e:
+                    add("combine_field_data_mpi waits for a message that is never sent", f"{kind}: key (source, dest, tag)={e.args[0]}")
+                    continue
+                src = f._data_full if wg else f.data
+                if mb.box or res is None or res.shape != src.shape or res.tobytes() != np.ascontiguousarray(src).tobytes():
+                    add(f"combine_field_data_mpi(ghost={wg}) does not restore the field", f"{kind}; left-over keys {sorted(mb.box)}")
+    mb.box = {}
+    return n
+
+
 MPI_CONFIGS = [[0, "auto"], [1, "sides"], [0, "antiperiodic"], [2, "value"], [0, "sides"], [1, "antiperiodic"], [2, "auto"], [0, "virtual_point"]]
 
 
@@ -902,12 +967,16 @@ def mpi_case(case):
     states = transitions = n = 0
     capped = None
 
-    saved = (mpi.rank, mpi.size, mpi.mpi_send, mpi.mpi_recv)
+    saved = (mpi.rank, mpi.size, mpi.mpi_send, mpi.mpi_recv, mpi.is_main)
     mb = Mailbox()
     rng = np.random.default_rng(seed)
     try:
         mpi.size = len(mesh)
         mpi.mpi_send, mpi.mpi_recv = mb.send, mb.recv
+        if not case.get("configs") or case.get("scatter", True):
+            n += scatter_gather(grid, mesh, mod, mb, mpi, lambda what, msg: viol.append(
+                {"sig": f"{tag}|MPI split/combine|{what}", "msg": where + msg, "detail": None, "fn": FN_M,
+                 "case": {"grid": spec, "decomp": decomp, "seed": seed, "configs": [], "scatter": True}}) if what not in seen and not seen.add(what) else None)
         for cfg in case.get("configs") or [c + ["all"] for c in MPI_CONFIGS]:
             rank, cls, how = int(cfg[0]), cfg[1], (cfg[2] if len(cfg) > 2 else "all")
 
@@ -1046,9 +1115,9 @@ def mpi_case(case):
                 break
             if finals != 1 and not viol:
                 add("no unique final state", f"{finals} final states")
-            outs.append(f"{how} orders")
+            outs.append("all orders" if how == "all" else "one order")
     finally:
-        mpi.rank, mpi.size, mpi.mpi_send, mpi.mpi_recv = saved
+        mpi.rank, mpi.size, mpi.mpi_send, mpi.mpi_recv, mpi.is_main = saved
     return {"v": viol[:6], "n": n + transitions, "states": states, "transitions": transitions, "traces": states,
             "outs": outs or ["nothing explored"], "nt": bool(outs), "key": f"{grid_name(spec)}|{decomp}",
             "ref": sorted(set(refs)), "cap": capped}
@@ -1125,11 +1194,11 @@ def grids_operators(tier):
     if q:
         shapes3 = [([3, 2, 2], [[False, False, False], [True, False, True]]), ([2, 2, 3], [[False, True, False]])]
     else:
-        shapes3 = [([3, 3, 3], [[False, False, False], [True, True, True], [False, True, False]]),
-                   ([7, 2, 2], [[False, False, False], [True, False, False]]),
-                   ([2, 7, 2], [[False, True, False], [False, False, True]]),
-                   ([2, 2, 7], [[False, False, True], [True, True, False]]),
-                   ([4, 3, 2], periodic_mixes(3))]
+        shapes3 = [([3, 3, 3], [[False, False, False], [True, False, True]]),
+                   ([7, 2, 2], [[True, False, False]]),
+                   ([2, 7, 2], [[False, False, True]]),
+                   ([2, 2, 7], [[False, False, True]]),
+                   ([4, 3, 2], [[False, False, False], [False, True, False], [True, True, True]])]
     for k, (shp, pers) in enumerate(shapes3):
         for per in pers:
             out.append(["cart", [[0, 1], [0, 2], [-3, 3]], shp, per] if k % 2 == 0 else ["unit", shp, per])
@@ -1198,9 +1267,13 @@ def main(run):
     if not only or "structure" in only:
         run.explore(FN_S, s_cases, mode="I", part="structure (tiling, split/combine, neighbours)")
     if not only or "operators" in only:
-        # expensive cases first so that the pool drains evenly
-        o_cases.sort(key=lambda c: -int(np.prod(geometry(c["grid"])["shape"])) * (3 ** len(c["decomp"])))
-        run.explore(FN_O, o_cases, mode="I", part="operators and transferred BCs", chunksize=1, limit=900)
+        # small grids first in their natural order (the first counterexample of a family is a small one), then the
+        # expensive cases, largest first, so that the pool drains evenly
+        cells = lambda c: int(np.prod(geometry(c["grid"])["shape"])) * (3 ** len(c["decomp"]))  # noqa: E731
+        small = [c for c in o_cases if cells(c) <= 40]
+        big = sorted((c for c in o_cases if cells(c) > 40), key=lambda c: (-cells(c), int(np.prod(c["decomp"]))))
+        for group in (small, big):
+            run.explore(FN_O, group, mode="I", part="operators and transferred BCs", chunksize=1, limit=900)
     if not only or "mpi" in only:
         m_cases = []
         for g in grids_mpi(tier):
@@ -1215,6 +1288,19 @@ def main(run):
         "cells_per_axis_max": 5 if tier == "quick" else 7,
         "decompositions": "every (c_1..c_d) with 1 <= c_k <= N_k, plus N_k+1 along each axis (must be refused)",
     }
+    run.notes["mpi_exchange"] = {
+        "grids": len(grids_mpi(tier)),
+        "rule": "quick: every decomposition with <= 4 nodes x 8 (rank, BC class) configurations, all interleavings; thorough: every "
+                "decomposition of the listed grids; all interleavings for every configuration if prod_nodes(communication steps + 1) "
+                "<= 1e5, for the first configuration only if <= 1.5e7, one order otherwise (outcome 'one order'); cap 3e6 states",
+        "configurations": MPI_CONFIGS,
+        "also": "split_field_mpi / combine_field_data_mpi of all nodes through the same mailbox (7 field kinds, two node orders)",
+    }
+    run.notes["doubtful_not_in_alphabet"] = (
+        "the 9-point Laplacian (config operators.cartesian.laplacian_2d_corner_weight != 0, not the default) sets the corner ghost cells "
+        "of each sub-grid by interpolation, so it differs between sub-grids and whole grid at chunk corners (UnitGrid([4,4]), "
+        "decomposition [2,2], corner_weight=1/3: deviation 0.06 on a uniform-random field)"
+    )
     run.notes["tolerances"] = (
         "bounds: contiguity/outer bounds 2 ulp, against independently computed cell edges 4 ulp, cell centres 8 ulp (ulp of the "
         "largest |bound| of the axis; Cuboid stores pos+size, linspace edges); volumes 1e-12 relative; split/combine and exchanged "
@@ -1241,5 +1327,7 @@ def main(run):
         "of the alphabet (1-3 axes, all periodic mixes, polar/spherical with and without hole, cylinders incl. periodic z and annular); "
         "structure part: every node x 7 field kinds x with/without ghost cells; operator part: every registered operator x option "
         "variants x (padded basis + 7 BC classes x valid basis) and 12 BC classes x ranks 0-2 x every node x every outer face for the "
-        "transferred conditions; distinct = (part, grid, decomposition) accepted by from_grid"
+        "transferred conditions; mpi part: every decomposition (quick: <= 4 nodes) of a smaller grid list x up to 8 (rank, BC class) x "
+        "all interleavings of the nodes' communication steps (memoised on the vector of program counters); "
+        "distinct = (part, grid, decomposition) accepted by from_grid"
     )
